@@ -266,7 +266,10 @@ Next == Build \/ Start \/ Step \/ Chdir
 \* fairness of the machine only: the environment (Chdir) cannot starve it, and nothing is assumed
 \* about the builder
 Spec == Init /\ [][Next]_vars /\ WF_vars(Step)
-SpecUnfair == Init /\ [][Next]_vars          \* (negative config: without fairness Halts must fail)
+\* negative configurations: without fairness Halts must fail (stuttering), and with fairness of the
+\* whole next-state relation the environment starves the machine by changing directory for ever
+SpecUnfair   == Init /\ [][Next]_vars
+SpecNextFair == Init /\ [][Next]_vars /\ WF_vars(Next)
 
 -----------------------------------------------------------------------------
 (* Invariants                                                              *)
